@@ -221,46 +221,12 @@ def r2(model, rep):
     if len(ps) != 4:
         raise AnalysisError("node helper has %d parameters" % len(ps))
     GR, NAME, ATTRS, LDF = ps
-    body = helper.body
-    ok = True
     where = "%s:%d" % (rel, helper.lineno)
-    idx = {}
-    # roles: the attribute dict is what is splatted into pydot.Node; the kind key is the name assigned from type(..).__name__
-    nodecalls = [c for c in ast.walk(helper) if isinstance(c, ast.Call) and ast.unparse(c.func) == "pydot.Node"]
-    if len(nodecalls) != 1 or not nodecalls[0].keywords or nodecalls[0].keywords[-1].arg is not None or not isinstance(nodecalls[0].keywords[-1].value, ast.Name):
-        raise AnalysisError("node helper: pydot.Node(name, **attributes) not found")
-    CONF = nodecalls[0].keywords[-1].value.id
-    COMP = None
-    for s in body:
-        if isinstance(s, ast.Assign) and isinstance(s.targets[0], ast.Name) and ast.unparse(s.value).endswith(".__name__"):
-            COMP = s.targets[0].id
-    if COMP is None:
-        raise AnalysisError("node helper: component kind key not found")
-    for i, s in enumerate(body):
-        src = ast.unparse(s).replace('"', "'").replace(" ", "")
-        if isinstance(s, ast.Assign) and src.startswith("%s=copy.deepcopy(%s['default'])" % (CONF, ATTRS)):
-            idx["default"] = i
-        if isinstance(s, ast.Assign) and is_name(s.targets[0], COMP):
-            idx["kinddef"] = i
-            want = "type(sys._g[sys._g.attrs['nodes'][%s]]).__name__" % NAME
-            if ast.unparse(s.value).replace('"', "'") != want:
-                ok = False
-                rep.violation("R2", "diagram._diag.add_node", "%s:%d" % (rel, s.lineno), "the kind used for overrides is %s, not the class name of the node's own component" % ast.unparse(s.value), "kind key")
-        if isinstance(s, ast.If) and len(s.body) == 1 and isinstance(s.body[0], ast.For) and isinstance(s.body[0].target, ast.Name):
-            t = ast.unparse(s.test).replace(" ", "")
-            kv = s.body[0].target.id
-            inner = ast.unparse(s.body[0]).replace('"', "'").replace(" ", "")
-            if t == "%sin%s" % (COMP, ATTRS) and "%s[%s]=%s[%s][%s]" % (CONF, kv, ATTRS, COMP, kv) in inner:
-                idx["kind"] = i
-            if t == "%sin%s" % (NAME, ATTRS) and "%s[%s]=%s[%s][%s]" % (CONF, kv, ATTRS, NAME, kv) in inner:
-                idx["name"] = i
-    need = ["default", "kind", "name"]
-    if any(k not in idx for k in need):
-        ok = False
-        rep.violation("R2", "diagram._diag.add_node", where, "override stages found: %s; expected default, kind and name stages" % sorted(idx), "override stages %s" % sorted(idx))
-    elif not (idx["default"] < idx["kind"] < idx["name"]):
-        ok = False
-        rep.violation("R2", "diagram._diag.add_node", where, "attribute overrides are not applied in the order default -> component kind -> component name", "override order")
+    # the whole helper against its reference text: default copy -> kind overrides -> name overrides -> heat colour / font /
+    # label from the node's own row (exactly when a loss frame is given) -> one node with these attributes
+    from .. import refcmp, sysrules
+    ok, rows = refcmp.compare(model, sysrules.roles(model), helper, refcmp.spec_function("spec_diag", "add_node"), rep, "R2",
+                              "diagram._diag.add_node", where, "node attributes", free=("sys",))
     rep.instance("R2", "diagram._diag.add_node override precedence", where, ok)
     # clusters: default -> group name
     src = ast.unparse(fn).replace('"', "'")
@@ -356,115 +322,20 @@ def r4(model, rep):
     if not ok:
         rep.violation("R4", "diagram._gcolor", "%s:%d" % (rel, fn.lineno), "the heat colour is %s, expected (1-mix)*cold + mix*warm" % (show_value(leaves[0].value) if leaves else "?"), "gcolor")
     rep.instance("R4", "diagram._gcolor affine mix cold -> warm", "%s:%d" % (rel, fn.lineno), ok)
-    # _prep_loss (role-based: the frame with the 'Mix' column, the maximum, the per-phase accumulation)
-    from ..idioms import parse_selection, parse_pred
+    # _prep_loss against its reference text (component rows only, duration-weighted mean over the phases written onto one
+    # phase's rows, scale = maximum loss or 1 when that is 0, Mix = loss / scale)
+    from .. import refcmp, sysrules
     fn = model.func("diagram", "_prep_loss")
     where = "%s:%d" % (rel, fn.lineno)
-    LOSS, PHASES = fn.args.args[0].arg, fn.args.args[1].arg
-    ok = True
-    mix = [x for x in ast.walk(fn) if isinstance(x, ast.Assign) and isinstance(x.targets[0], ast.Subscript) and isinstance(x.targets[0].slice, ast.Constant) and x.targets[0].slice.value == "Mix"]
-    if len(mix) != 1 or not isinstance(mix[0].targets[0].value, ast.Name):
-        raise AnalysisError("_prep_loss: the 'Mix' column is not assigned once")
-    frame = mix[0].targets[0].value.id
-    maxdef = [x for x in ast.walk(fn) if isinstance(x, ast.Assign) and isinstance(x.targets[0], ast.Name) and isinstance(x.value, ast.Call)
-              and isinstance(x.value.func, ast.Attribute) and x.value.func.attr == "max"]
-    if len(maxdef) != 1:
-        raise AnalysisError("_prep_loss: the scale maximum is not computed once")
-    MX = maxdef[0].targets[0].id
-    if ast.unparse(maxdef[0].value.func.value).replace('"', "'") != "%s['Loss (W)']" % frame:
-        ok = False
-        rep.violation("R4", "diagram._prep_loss", "%s:%d" % (rel, maxdef[0].lineno), "the colour scale is max of %s, expected the Loss column of the prepared frame" % ast.unparse(maxdef[0].value.func.value), "scale source")
-    v = mix[0].value
-    good = isinstance(v, ast.BinOp) and isinstance(v.op, ast.Div) and is_name(v.right, MX) and ast.unparse(v.left).replace('"', "'").startswith("%s['Loss (W)']" % frame)
-    if not good:
-        ok = False
-        rep.violation("R4", "diagram._prep_loss", "%s:%d" % (rel, mix[0].lineno), "Mix is %s, expected loss / max(loss)" % ast.unparse(v), "mix formula")
-    guards = [x for x in ast.walk(fn) if isinstance(x, ast.If) and MX in {n.id for n in ast.walk(x.test) if isinstance(n, ast.Name)}]
-    gok = len(guards) == 1 and isinstance(guards[0].test, ast.Compare) and isinstance(guards[0].test.ops[0], ast.Eq) and \
-        {ast.unparse(guards[0].test.left), ast.unparse(guards[0].test.comparators[0])} <= {MX, "0.0", "0"} and \
-        len(guards[0].body) == 1 and ast.unparse(guards[0].body[0]).replace(" ", "") in ("%s=1.0" % MX, "%s=1" % MX) and not guards[0].orelse
-    if not gok:
-        ok = False
-        rep.violation("R4", "diagram._prep_loss", "%s:%d" % (rel, guards[0].lineno if guards else fn.lineno),
-                      "the colour scale is reset to 1 under `%s`, expected exactly when the maximum loss is 0: small but non-zero losses would all render cold / a zero maximum would divide by zero" % (ast.unparse(guards[0].test) if guards else "no test"), "maxloss guard")
-    # every selection of the incoming table keeps component rows only
-    sels = [x for x in ast.walk(fn) if isinstance(x, ast.Subscript) and is_name(x.value, LOSS) and not isinstance(x.slice, ast.Constant)]
-    for sx in sels:
-        pr = parse_pred(sx.slice, LOSS, lambda n: ast.unparse(n))
-        if pr != {("Type", "!=", "''")}:
-            ok = False
-            rep.violation("R4", "diagram._prep_loss", "%s:%d" % (rel, sx.lineno), "the table is filtered by %s, expected component rows only (Type != '')" % ast.unparse(sx.slice), "row filter")
-    if not sels:
-        raise AnalysisError("_prep_loss: no selection of the loss table")
-    # duration-weighted mean
-    loops = [x for x in ast.walk(fn) if isinstance(x, ast.For)]
-    if len(loops) != 1 or not isinstance(loops[0].target, ast.Name) or ast.unparse(loops[0].iter) not in ("%s.keys()" % PHASES, PHASES):
-        raise AnalysisError("_prep_loss: phase loop not recognised")
-    K = loops[0].target.id
-    augs = [x for x in loops[0].body if isinstance(x, ast.AugAssign) and isinstance(x.op, ast.Add) and isinstance(x.target, ast.Name)]
-    wv = [x for x in augs if ast.unparse(x.value) == "%s[%s]" % (PHASES, K)]
-    av = [x for x in augs if x not in wv]
-    if len(wv) != 1 or len(av) != 1:
-        ok = False
-        rep.violation("R4", "diagram._prep_loss", "%s:%d" % (rel, loops[0].lineno), "the phase loop does not accumulate one weighted loss and one total weight", "weighted mean shape")
-    else:
-        val = av[0].value
-        w_ok = isinstance(val, ast.BinOp) and isinstance(val.op, ast.Mult) and ("%s[%s]" % (PHASES, K)) in (ast.unparse(val.left), ast.unparse(val.right))
-        other = val.right if w_ok and ast.unparse(val.left) == "%s[%s]" % (PHASES, K) else (val.left if w_ok else val)
-        otxt = ast.unparse(other).replace('"', "'")
-        sel_ok = (".Phase == %s]" % K in otxt or "[%s == " % K in otxt and ".Phase]" in otxt) and "['Loss (W)']" in otxt
-        if not w_ok or not sel_ok:
-            ok = False
-            rep.violation("R4", "diagram._prep_loss", "%s:%d" % (rel, av[0].lineno), "a phase contributes %s, expected duration(phase) * loss of that phase's rows" % ast.unparse(val), "weighted term")
-        AV, WV = av[0].target.id, wv[0].target.id
-        div = [x for x in ast.walk(fn) if isinstance(x, ast.Assign) and is_name(x.targets[0], AV) and isinstance(x.value, ast.BinOp) and isinstance(x.value.op, ast.Div)]
-        if len(div) != 1 or not (is_name(div[0].value.left, AV) and is_name(div[0].value.right, WV)) or div[0].lineno < loops[0].end_lineno:
-            ok = False
-            rep.violation("R4", "diagram._prep_loss", "%s:%d" % (rel, loops[0].lineno), "the weighted sum is not divided by the total duration after the loop", "mean division")
-    # the weighted mean is taken exactly when phases are defined, and is written onto one phase's component rows
-    top = [x for x in fn.body if isinstance(x, ast.If) and any(y is loops[0] for y in ast.walk(x))]
-    if len(top) != 1 or ast.unparse(top[0].test).replace(" ", "") not in ("%s!={}" % PHASES, "{}!=%s" % PHASES, "len(%s)>0" % PHASES, "0<len(%s)" % PHASES, PHASES):
-        ok = False
-        rep.violation("R4", "diagram._prep_loss", where, "the duration-weighted mean is taken under `%s`, expected: when phases are defined" % (ast.unparse(top[0].test) if top else "no condition"), "weighted branch condition")
-    else:
-        base = [x for x in top[0].body if isinstance(x, ast.Assign) and is_name(x.targets[0], frame)]
-        btxt = ast.unparse(base[0].value).replace('"', "'").replace(" ", "") if base else ""
-        if not (len(base) == 1 and (".Phase==list(%s.keys())[" % PHASES in btxt or ("[list(%s.keys())[" % PHASES in btxt and ".Phase]" in btxt)) and btxt.endswith(".copy()")):
-            ok = False
-            rep.violation("R4", "diagram._prep_loss", where, "the averaged losses are not written onto the rows of exactly one phase (%s)" % (ast.unparse(base[0].value) if base else "no base frame"), "base frame")
-        upd = [x for x in top[0].body if isinstance(x, ast.Expr) and isinstance(x.value, ast.Call) and ast.unparse(x.value.func) == "%s.update" % frame]
-        if len(upd) != 1:
-            ok = False
-            rep.violation("R4", "diagram._prep_loss", where, "the averaged losses never replace the per-phase losses", "update missing")
-        els = [x for x in top[0].orelse if isinstance(x, ast.Assign) and is_name(x.targets[0], frame)]
-        if len(els) != 1:
-            ok = False
-            rep.violation("R4", "diagram._prep_loss", where, "without phases no loss frame is prepared", "no-phase branch")
-    rep.instance("R4", "diagram._prep_loss scale and duration-weighted mean", where, ok)
+    ok, rows = refcmp.compare(model, sysrules.roles(model), fn, refcmp.spec_function("spec_diag", "_prep_loss"), rep, "R4",
+                              "diagram._prep_loss", where, "loss preparation")
+    rep.instance("R4", "diagram._prep_loss scale and duration-weighted mean", where, ok, "%d guard rows" % rows)
     # label / colour of a node come from its own row; legend shows the maximum
     d = model.func("diagram", "_diag")
     helper = [x for x in d.body if isinstance(x, ast.FunctionDef)][0]
     GR, NAME, ATTRS, LDF = [a.arg for a in helper.args.args]
     ok = True
 
-    def own_row(node, col):
-        sel = parse_selection(node, LDF, lambda n: ast.unparse(n))
-        return sel is not None and sel.col == col and sel.reducer == "first" and set(sel.conds) == {("Component", "==", NAME)}
-    stores = {ast.unparse(x.targets[0]).replace('"', "'"): x for x in ast.walk(helper) if isinstance(x, ast.Assign) and isinstance(x.targets[0], ast.Subscript)}
-    nodecalls = [c for c in ast.walk(helper) if isinstance(c, ast.Call) and ast.unparse(c.func) == "pydot.Node"]
-    CONF = nodecalls[0].keywords[-1].value.id if nodecalls and nodecalls[0].keywords and isinstance(nodecalls[0].keywords[-1].value, ast.Name) else "conf"
-    fc = stores.get("%s['fillcolor']" % CONF)
-    if fc is None or not (isinstance(fc.value, ast.Call) and is_name(fc.value.func, "_gcolor") and own_row(fc.value.args[0], "Mix")):
-        ok = False
-        rep.violation("R4", "diagram._diag.add_node", "%s:%d" % (rel, (fc or helper).lineno), "a node's heat colour is %s, expected _gcolor(Mix of the node's own row)" % (ast.unparse(fc.value) if fc is not None else "not set"), "node colour source")
-    lb = stores.get("%s['label']" % CONF)
-    good = False
-    if lb is not None and isinstance(lb.value, ast.Call) and isinstance(lb.value.func, ast.Attribute) and isinstance(lb.value.func.value, ast.Constant) and len(lb.value.args) == 2:
-        fmt, a0, a1 = lb.value.func.value.value, lb.value.args[0], lb.value.args[1]
-        good = fmt == "{}\n{}W" and is_name(a0, NAME) and isinstance(a1, ast.Call) and is_name(a1.func, "_nice_float") and own_row(a1.args[0], "Loss (W)")
-    if not good:
-        ok = False
-        rep.violation("R4", "diagram._diag.add_node", "%s:%d" % (rel, (lb or helper).lineno), "a node's heat label is %s, expected '<name>\\n<SI-formatted loss of its own row>W'" % (ast.unparse(lb.value) if lb is not None else "not set"), "node label source")
     lg = [x for x in ast.walk(d) if isinstance(x, ast.Assign) and isinstance(x.targets[0], ast.Subscript) and ast.unparse(x.targets[0].slice).replace('"', "'") == "'label'"
           and isinstance(x.value, ast.Call) and isinstance(x.value.func, ast.Attribute) and x.value.func.attr == "format" and x not in ast.walk(helper)]
     good = False
@@ -479,13 +350,6 @@ def r4(model, rep):
     if not pl or ast.unparse(pl[0].value).replace(" ", "") != "_prep_loss(loss,sys.get_sys_phases())":
         ok = False
         rep.violation("R4", "diagram._diag", "%s:%d" % (rel, d.lineno), "losses are not prepared from the given table with the system's own phases", "prep call")
-    # heat attributes are applied exactly when a loss frame is given
-    for key in ("fillcolor", "label"):
-        st_ = stores.get("%s['%s']" % (CONF, key))
-        par = getattr(st_, "_parent", None) if st_ is not None else None
-        if not (isinstance(par, ast.If) and ast.unparse(par.test).replace(" ", "") == "%sisnotNone" % LDF and not par.orelse):
-            ok = False
-            rep.violation("R4", "diagram._diag.add_node", "%s:%d" % (rel, (st_ or helper).lineno), "the heat %s is not applied exactly when a loss table is given" % key, "heat %s condition" % key)
     if pl:
         par = getattr(pl[0], "_parent", None)
         if not (isinstance(par, ast.If) and ast.unparse(par.test).replace(" ", "") == "lossisnotNone"):
